@@ -103,6 +103,10 @@ theorem isReferenceActivated_keeps (f) : Keeps I (isReferenceActivated f) := by
   unfold isReferenceActivated; mvcgen
 attribute [local spec] isReferenceActivated_keeps
 omit hend in
+theorem deactivatesRef_keeps (d f) : Keeps I (deactivatesRef d f) := by
+  unfold deactivatesRef; mvcgen
+attribute [local spec] deactivatesRef_keeps
+omit hend in
 theorem isChildActivated_keeps (f) : Keeps I (isChildActivated f) := by
   unfold isChildActivated; mvcgen
 attribute [local spec] isChildActivated_keeps
@@ -155,7 +159,7 @@ macro "keeps_side" h:term : tactic => `(tactic| (
 
 /-! ### everything that moves heads: any operation except `status = STOPPING` -/
 section moves
-attribute [local spec] attemptPy_keeps instanceArguments_keeps flowObjOf_keeps flowStartEvent_keeps flowGetEvent_keeps actionGetEvent_keeps tempAction_keeps tempFlowObj_keeps resolveRef_keeps getEventName_keeps getEvent_keeps eventMatchingScore_keeps updateActionStatusByEvent_keeps generateUmimEvent_keeps releaseAction_keeps isReferenceActivated_keeps isChildActivated_keeps failedEvent_keeps restartActivated_keeps logActionOrIntents_keeps
+attribute [local spec] attemptPy_keeps instanceArguments_keeps flowObjOf_keeps flowStartEvent_keeps flowGetEvent_keeps actionGetEvent_keeps tempAction_keeps tempFlowObj_keeps resolveRef_keeps getEventName_keeps getEvent_keeps eventMatchingScore_keeps updateActionStatusByEvent_keeps generateUmimEvent_keeps releaseAction_keeps isReferenceActivated_keeps deactivatesRef_keeps isChildActivated_keeps failedEvent_keeps restartActivated_keeps logActionOrIntents_keeps
 variable (I : StInv) (hall : ∀ op, NotStoppingOp op → I.okOp op)
 include hall
 
